@@ -68,6 +68,16 @@ CLAIMED['C06'] = dict(
          'uninterpreted types arena, subtype verdicts and name validity; stated realisability restrictions on pre-states; z3.',
     design='DESIGN.md section 3 / C06')
 
+CLAIMED['C18'] = dict(
+    technique='symbolic execution of rustc MIR (M2S) of FileSystemPackageResolver::resolve for three feature sets, the file system being uninterpreted functions of symbolic paths; z3 decides outcome == documented decision table; models replayed on real directory trees',
+    text='For every file-system state (kind and readability of every candidate path as uninterpreted functions), every key shape (1-3 name '
+         'segments, with / without version), override present / absent / dangling / of any extension, both unknown-package modes and the '
+         'feature sets none / wat / wit: the outcome of resolve (which error, skipped, or the content of exactly which path, converted or not) '
+         'equals the documented decision table; in particular the extension is appended to a version, `.wat` wins over `.wasm`, overrides apply '
+         'to unversioned keys only. One key per call. WIT/WAT parsing is opaque.',
+    note='Trusted: path model (components of dot-separated tokens), std::path / std::fs models, M2S, z3. Each witness and counterexample is replayed natively on a real temp directory with the resolver built with the same feature.',
+    design='DESIGN.md section 3 / C18')
+
 NOT_APPLICABLE = {
  'C01': 'validity is defined by an external 60 kLoC validator over whole-pipeline output; neither it nor the encoder can be executed symbolically here (DESIGN.md section 4)',
  'C05': 'needs wit-component as reference encoder and the validator subtype relation as comparison; out of reach of symbolic execution (DESIGN.md section 4)',
